@@ -342,7 +342,35 @@ func c12FinalBlock(r *lib.Rng, defs []c12Class) []string {
 			}
 		}
 		subsets := c12Subsets(vs)
-		actAfter := r.Intn(len(subsets))
+		// the instance the accessors act on: one whose initargs are not ambiguous (no slot reached by
+		// two of the supplied names), so that both sides have an instance
+		var unamb []int
+		for si, sub := range subsets {
+			ok := true
+			for x := range slots {
+				hit := 0
+				for _, k := range sub {
+					declared := false
+					for a := range anc {
+						for _, sl := range defs[a].slots {
+							if sl.name == x {
+								for _, ia := range sl.initargs {
+									declared = declared || ia == k
+								}
+							}
+						}
+					}
+					if declared {
+						hit++
+					}
+				}
+				ok = ok && hit < 2
+			}
+			if ok {
+				unamb = append(unamb, si)
+			}
+		}
+		actAfter := unamb[r.Intn(len(unamb))]
 		for si, sub := range subsets {
 			// random order of the supplied initargs
 			sub = append([]int{}, sub...)
@@ -1170,8 +1198,16 @@ func c12Seen(c *lib.Ctx, sig string) bool {
 
 func c12Compare(c *lib.Ctx, p *c12Prog, model []string, runs [][]string) (agree bool) {
 	agree = true
+	// after a make-instance with ambiguous initargs that the implementation rejected there is no
+	// current instance on its side: the reader/writer tokens up to the next make-instance are skipped
+	noInst := make([]bool, len(runs))
 	for i, tok := range p.toks {
 		for rep, words := range runs {
+			if tok[0] == 'M' {
+				noInst[rep] = strings.HasPrefix(model[i], "?") && words[i] == "!error"
+			} else if noInst[rep] && (tok[0] == 'W' || tok[0] == 'R' || tok[0] == 'U') && words[i] == "!noinst" {
+				continue
+			}
 			if i >= len(words) || c12Agree(tok, model[i], words[i]) {
 				continue
 			}
